@@ -11,6 +11,18 @@ from . import common
 LEVEL = "proof"
 
 
+def _one_call(term):
+    """`f(..)` and nothing behind the closing parenthesis of that call"""
+    i = term.find("(")
+    depth = 0
+    for j in range(i, len(term)):
+        depth += term[j] == "("
+        depth -= term[j] == ")"
+        if depth == 0:
+            return j == len(term) - 1
+    return False
+
+
 def expand_format(fmt):
     return fmt.replace("%F", "%Y-%m-%d").replace("%T", "%H:%M:%S")
 
@@ -53,7 +65,8 @@ def run(ctx, res):
         if ft and k == "is_some(%s.some.value)" % ft:
             return ("value", v)
         m = re.match(r"^is_ok\((chrono::DateTime::parse_from_str\(.*\))\)$", k)
-        if m:
+        if m and _one_call(m.group(1)):
+            # (exactly one call of the parser: `parse_from_str(..).or_else(|_| another parse)` is another decision)
             state["parse_term"] = m.group(1)
             return ("ok", v)
         pt = state["parse_term"]
